@@ -413,8 +413,26 @@ func (c *checker) run() int {
 				continue
 			}
 			bad := 0
+			gots := make([]string, len(cases))
+			errs := make([]error, len(cases))
+			var pwg sync.WaitGroup
+			pch := make(chan int)
+			for k := 0; k < c.workers; k++ {
+				pwg.Add(1)
+				go func() {
+					defer pwg.Done()
+					for i := range pch {
+						gots[i], errs[i] = w.RunProbe(pkgPath(pkg), cases[i].Probe, cases[i].args)
+					}
+				}()
+			}
+			for i := range cases {
+				pch <- i
+			}
+			close(pch)
+			pwg.Wait()
 			for i, cs := range cases {
-				got, err := w.RunProbe(pkgPath(pkg), cs.Probe, cs.args)
+				got, err := gots[i], errs[i]
 				if err != nil {
 					c.inconclusive("translator validation: engine cannot run %s: %s", cs.Probe, firstLine(err.Error()))
 					bad++
